@@ -28,7 +28,7 @@ import re
 from harness import common
 from harness.common import Model, s2l
 
-FACTS = ("tables", "c15")
+FACTS = ("tables", "parser", "c02", "c15")
 RUNNERS = ["RX"]
 
 RULE = ("seeded version lists (1-4 versions, newest first) rendered from record lists "
